@@ -227,6 +227,8 @@ Fixpoint merge_loop3 (fuel : nat) (a : list ninfo) (start stop : nat) (depth pre
     bind (merge_inner (S stop) a start stop false next) (fun '(a, start, stop, changed, next) =>
       if ((prev_depth <=? depth) && negb changed) || (start =? 0) then Ok (a, next)
       else
+        (* a node created from a window that mixes the two depths has depth prev_depth+1: go on there *)
+        let depth := if changed && (depth <? prev_depth) then prev_depth else depth in
         let stop := start in
         let start := start - lead_run (S depth) (rev (firstn start (depths a))) in
         merge_loop3 fuel a start stop (S depth) prev_depth next)
